@@ -1,1 +1,1 @@
-import DPModel
+import DPProofs.Lemmas.Date
